@@ -604,6 +604,17 @@ func (e *Engine) lookupIntrinsic(fn *ssa.Function) intrinsicFn {
 	if h := stdIntrinsic(name, fn); h != nil {
 		return h
 	}
+	switch name {
+	case "time.NewTimer", "time.After":
+		// default (no override in the spec): the prelude's already-fired timer
+		if e.entry != nil && e.entry.Pkg != nil {
+			if hf := e.entry.Pkg.Func(map[string]string{"time.NewTimer": "zzStdNewTimer", "time.After": "zzStdAfter"}[name]); hf != nil {
+				return func(x *Exec, _ *ssa.Function, a []Value) Value { return x.call(hf, a, nil) }
+			}
+		}
+	case "(*time.Timer).Stop", "(*time.Timer).Reset":
+		return func(x *Exec, _ *ssa.Function, a []Value) Value { return mkBool(false) }
+	}
 	return nil
 }
 
